@@ -17,6 +17,63 @@ ParseScoreText(s) == IF Len(s) = 3 /\ Ch(s,1) \in Digits /\ Ch(s,2) = "." /\ Ch(
                         THEN 10 * DigitVal(Ch(s,1)) + DigitVal(Ch(s,3))
                      ELSE IF s = "10.0" THEN 100 ELSE -1
 
+\* ---- Red Hat notation -------------------------------------------------------------------
+\* Python's float() literal grammar restricted to ASCII (the drivers generate nothing else):
+\*   [blanks] [sign] ( digitpart [. [digitpart]] | . digitpart ) [ (e|E) [sign] digitpart ] [blanks]
+\*   | [blanks] [sign] (inf | infinity | nan) [blanks]          (case-insensitive)
+\* digitpart = digit ( [_] digit )*        (underscores between digits: Python >= 3.6)
+IsDigitPart(s) == /\ s # "" /\ Ch(s,1) \in Digits /\ Ch(s,Len(s)) \in Digits
+                  /\ \A k \in 1..Len(s) : Ch(s,k) \in Digits \/ (Ch(s,k) = "_" /\ Ch(s,k-1) \in Digits /\ Ch(s,k+1) \in Digits)
+StripSign(s) == IF s # "" /\ Ch(s,1) \in {"+","-"} THEN Tail(s) ELSE s
+IsNegative(s) == s # "" /\ Ch(s,1) = "-"
+\* position of the exponent marker, 0 if none
+ExpPos(s) == LET a == IndexFrom(s,"e",1)  b == IndexFrom(s,"E",1) IN IF a = 0 THEN b ELSE IF b = 0 THEN a ELSE IF a < b THEN a ELSE b
+Mantissa(s) == IF ExpPos(s) = 0 THEN s ELSE SubSeq(s,1,ExpPos(s)-1)
+ExpPart(s) == IF ExpPos(s) = 0 THEN "" ELSE SubSeq(s,ExpPos(s)+1,Len(s))
+IntPart(m) == IF IndexFrom(m,".",1) = 0 THEN m ELSE SubSeq(m,1,IndexFrom(m,".",1)-1)
+FracPart(m) == IF IndexFrom(m,".",1) = 0 THEN "" ELSE SubSeq(m,IndexFrom(m,".",1)+1,Len(m))
+IsMantissa(m) == LET ip == IntPart(m)  fp == FracPart(m) IN
+                 /\ (ip # "" \/ fp # "")
+                 /\ (ip = "" \/ IsDigitPart(ip)) /\ (fp = "" \/ IsDigitPart(fp))
+IsSpecialFloat(u) == Upper(u) \in {"INF","INFINITY","NAN"}
+IsFloatLiteral(raw) == LET s == StripSign(Strip(raw)) IN
+                       \/ IsSpecialFloat(s)
+                       \/ /\ IsMantissa(Mantissa(s))
+                          /\ (ExpPos(s) = 0 \/ IsDigitPart(StripSign(ExpPart(s))))
+\* digits of a digit part without underscores, as a sequence of small integers
+RECURSIVE DigitsOf(_)
+DigitsOf(s) == IF s = "" THEN <<>> ELSE (IF Ch(s,1) = "_" THEN <<>> ELSE <<DigitVal(Ch(s,1))>>) \o DigitsOf(Tail(s))
+RECURSIVE SmallVal(_,_)
+SmallVal(ds, acc) == IF ds = <<>> THEN acc ELSE IF acc > 100000000 THEN acc ELSE SmallVal(Tail(ds), 10*acc + ds[1])
+RECURSIVE StripLeadZ(_)
+StripLeadZ(ds) == IF ds # <<>> /\ ds[1] = 0 THEN StripLeadZ(Tail(ds)) ELSE ds
+RECURSIVE StripTrailZ(_)
+StripTrailZ(ds) == IF ds # <<>> /\ ds[Len(ds)] = 0 THEN StripTrailZ(SubSeq(ds,1,Len(ds)-1)) ELSE ds
+\* does the finite literal denote exactly t/10 (t in 0..100)?  value = D * 10^(e - |frac|), D = int ++ frac digits
+LiteralEqualsTenths(raw, t) ==
+   LET s0 == Strip(raw)  s == StripSign(s0)  m == Mantissa(s)
+       ip == DigitsOf(IntPart(m))  fp == DigitsOf(FracPart(m))
+       all == StripLeadZ(ip \o fp)
+       sig == StripTrailZ(all)                         \* significant digits
+       ex == IF ExpPos(s) = 0 THEN 0
+             ELSE LET x == ExpPart(s) IN (IF IsNegative(x) THEN -1 ELSE 1) * SmallVal(DigitsOf(StripSign(x)), 0)
+       pow == ex - Len(fp) + (Len(all) - Len(sig))    \* value = sig * 10^pow
+       td == IF t = 0 THEN <<>> ELSE IF t % 10 = 0 THEN (IF t = 100 THEN <<1>> ELSE <<t \div 10>>) ELSE (IF t > 10 THEN <<t \div 10, t % 10>> ELSE <<t>>)
+       tp == IF t = 0 THEN 0 ELSE IF t = 100 THEN 1 ELSE IF t % 10 = 0 THEN 0 ELSE -1
+   IN IF IsSpecialFloat(s) THEN FALSE
+      ELSE IF sig = <<>> THEN t = 0                    \* zero, of either sign
+      ELSE IF IsNegative(s0) THEN FALSE
+      ELSE sig = td /\ pow = tp
+\* class of outcome of from_rh_vector(ver, s) given the base score (tenths) the library computes
+\* for the vector part; -1 when the vector part is not accepted
+RhSplit(s) == LET k == IndexFrom(s,"/",1) IN IF k = 0 THEN <<>> ELSE <<SubSeq(s,1,k-1), SubSeq(s,k+1,Len(s))>>
+FromRhClass(ver, s, base) ==
+   IF RhSplit(s) = <<>> THEN "rhmalformed"
+   ELSE IF ~IsFloatLiteral(RhSplit(s)[1]) THEN "rhmalformed"
+   ELSE LET c == Classify(ver, RhSplit(s)[2]) IN
+        IF c # "ok" THEN c
+        ELSE IF LiteralEqualsTenths(RhSplit(s)[1], base) THEN "ok" ELSE "rhmismatch"
+
 \* equality of objects: same class, same minor version, same defined metric values
 EqObj(ver1, minor1, g1, ver2, minor2, g2) == ver1 = ver2 /\ minor1 = minor2 /\ Defined(ver1, g1) = Defined(ver2, g2)
 =============================================================================
